@@ -105,12 +105,13 @@ def validUtf8 : Bytes → Bool
 
 /-! ## fai
 
-The reader is modelled AS IT IS: every line goes through `String` (`read_line`), so a line that
-is not UTF-8 is `InvalidData` before any column is looked at — although the name column is a
-byte string (`BStr`) that the FASTA indexer copies from the definition line as bytes and the
-writer emits as bytes (known finding F34: such an index is written but cannot be read back).
-The model validates the line after the `\n` / `\r\n` stripping; std validates it before, which
-is the same thing because the stripped bytes are ASCII. -/
+The reader splits the line as BYTES (`parse_record_bytes`, fix dfcc1c6): the name column is a byte
+string (`BStr`) that the FASTA indexer copies from the definition line as bytes and the writer
+emits as bytes; only the four numeric columns go through `str::from_utf8` before `parse`. A numeric
+column that is not UTF-8 is not a digit string either, so `parseU64` (ASCII digits only) rejects it
+with the same `InvalidData` and no separate validation step appears in the model. (`validUtf8`
+above is kept: it documents what `core::str::from_utf8` accepts and is compared with the real
+function on every run.) -/
 
 structure FaiRecord where
   name : Bytes
@@ -135,7 +136,6 @@ def parseNonZero (s : Bytes) : Option Nat :=
 is `InvalidData`. (With `splitn` a sixth column stays glued to the fifth, which then fails to
 parse — the same outcome as rejecting more than five fields.) -/
 def parseFaiLine (l : Bytes) : Except Err FaiRecord :=
-  if ¬ validUtf8 l then .error .invalid else
   if l = [] then .error .invalid else
   match splitOn TAB l with
   | [n, a, b, c, d] =>
